@@ -533,7 +533,11 @@ class CParser(RecursiveDescentParser):
         = {.foobar = {23, 3}}; // C99
         = {[2..5] = 2}; // C99
         """
-        if self.peek == "{":
+        if self.peek == "{" and not typ.is_compound:
+            expr = self.parse_braced_scalar_initializer()
+            expr = self.semantics.pointer(expr)
+            initializer = self.semantics.coerce(expr, typ)
+        elif self.peek == "{":
             initializer = self.parse_initializer_list(typ)
         elif typ.is_char_array and self.peek == "STRING":
             initializer = self.parse_array_string_initializer(typ)
@@ -613,7 +617,10 @@ class CParser(RecursiveDescentParser):
 
         # Parse actual initializer.
         typ = init_cursor.level.element_typ()
-        if self.peek == "{":
+        if self.peek == "{" and not typ.is_compound:
+            initializer = self.parse_braced_scalar_initializer()
+            self.semantics.init_store(init_cursor, initializer)
+        elif self.peek == "{":
             initializer = self.parse_initializer_list_sub(init_cursor, typ)
         else:
             initializer = self.parse_constant_expression()
@@ -639,6 +646,17 @@ class CParser(RecursiveDescentParser):
         field_name = field.val
         self.semantics.on_field_designator(init_cursor, field_name, location)
         return location
+
+    def parse_braced_scalar_initializer(self):
+        """Parse the initializer of a scalar which is enclosed in braces.
+
+        For example: int x = {5}; See C99 6.7.8p11.
+        """
+        self.consume("{")
+        expr = self.parse_constant_expression()
+        self.has_consumed(",")
+        self.consume("}")
+        return expr
 
     def skip_excess_initializer(self):
         """Skip a superfluous initial value, with a warning as gcc."""
